@@ -17,7 +17,7 @@ ASSUMPTIONS = [
   "so no alarm on a schedule an OS scheduler with blocking primitives cannot produce for ever)",
   "operations on objects only one thread touches (or that are only read) are merged into the preceding step (they commute with every other thread's operations)",
 ]
-OUTSIDE = ["posts racing each other for the last free token slot (the full()-then-put() window at capacity; one full-queue scenario is included)", "more than 2 posters (quick) / 3 posters (thorough), more than one post per poster", "cycles and deadlocks that need more than K steps (K per query in the evidence)",
+OUTSIDE = ["more than 2 posters (quick) / 3 posters (thorough), more than one post per poster", "cycles and deadlocks that need more than K steps (K per query in the evidence)",
            "real capacity 500 (capacity 3 is modelled; the cycle found on the unrepaired code does not involve the capacity)", "unfair schedules (excluded by the statement)"]
 EXPLANATION = ("Bounded model checking (z3/cvc5 portfolio on QF_BV) of the step machine translated from the real LockingDeque.append/appendleft, "
                "ActiveObject.post_fifo/post_lifo/run_event, HsmWithQueues.next_rtc: for every schedule up to K steps there is no state in which a poster "
